@@ -433,6 +433,7 @@ type wgObs struct {
 	APIStructureDiffers    bool         `json:"api_structure_differs"`    // the API-style protobuf of the same model gives another structure
 	SharedStructureDiffers bool         `json:"shared_structure_differs"` // the same model with structurally equal subtrees shared (one message value) gives another structure
 	TypePerm               []*wgOutcome `json:"typeperm,omitempty"`
+	SplitPerm              []*wgOutcome `json:"splitperm,omitempty"` // distinct outcomes over the orders of a model in which one type is defined in two parts
 	OpPerm                 []wgOpPerm   `json:"opperm,omitempty"`
 	Conc                   []*wgOutcome `json:"conc,omitempty"`
 }
@@ -567,6 +568,34 @@ func sliceIdentity(m *openfgav1.AuthorizationModel) []*openfgav1.TypeDefinition 
 var recycledWGModel = &openfgav1.AuthorizationModel{}
 var previousWGModel *openfgav1.AuthorizationModel
 
+// splitTypeDefs returns the model with its first type of two or more relations defined twice: the relations (and their metadata)
+// whose names sort into the first half in one definition, the others in a second definition of the same name; nil if there is none.
+func splitTypeDefs(model *openfgav1.AuthorizationModel) *openfgav1.AuthorizationModel {
+	out := proto.Clone(model).(*openfgav1.AuthorizationModel)
+	for i, td := range out.GetTypeDefinitions() {
+		if len(td.GetRelations()) < 2 {
+			continue
+		}
+		names := []string{}
+		for n := range td.GetRelations() {
+			names = append(names, n)
+		}
+		sort.Strings(names)
+		second := &openfgav1.TypeDefinition{Type: td.GetType(), Relations: map[string]*openfgav1.Userset{}, Metadata: &openfgav1.Metadata{Relations: map[string]*openfgav1.RelationMetadata{}}}
+		for _, n := range names[len(names)/2:] {
+			second.Relations[n] = td.Relations[n]
+			delete(td.Relations, n)
+			if md, ok := td.GetMetadata().GetRelations()[n]; ok {
+				second.Metadata.Relations[n] = md
+				delete(td.Metadata.Relations, n)
+			}
+		}
+		out.TypeDefinitions = append(out.TypeDefinitions[:i+1], append([]*openfgav1.TypeDefinition{second}, out.TypeDefinitions[i+1:]...)...)
+		return out
+	}
+	return nil
+}
+
 func sameJSON(a, b any) bool {
 	x, _ := json.Marshal(a)
 	y, _ := json.Marshal(b)
@@ -676,6 +705,13 @@ func wgReplay(args []string) error {
 			}
 			record(run.outcome)
 		}
+		// the stored form of a model carries an id, and ids are not content: every model of this run is built once more under ONE id
+		// (the same id in two stores, a fixture id) - the graph is a function of the type definitions handed over
+		sameID := proto.Clone(model).(*openfgav1.AuthorizationModel)
+		sameID.Id = "01HVERIFSAMEIDFORALLMODELS"
+		for i := 0; i < 2; i++ {
+			record(buildWG(sameID, nil).outcome)
+		}
 		// ... and assembled from shared building blocks: structurally equal subtrees are one message value (proto.Equal to the model above)
 		sharedAbs := *inp.M
 		sharedAbs.SharedNodes = true
@@ -727,6 +763,29 @@ func wgReplay(args []string) error {
 					if !seenT[o.key] {
 						seenT[o.key] = true
 						obs.TypePerm = append(obs.TypePerm, o)
+					}
+				}
+			}
+			// a type whose relations are spread over two definitions of the same name (nothing in the builder's input forbids it): whatever
+			// the builder makes of it, it makes the same of it in every order of the definitions
+			if split := splitTypeDefs(model); split != nil {
+				sidx := make([]string, len(split.TypeDefinitions))
+				for i := range sidx {
+					sidx[i] = fmt.Sprint(i)
+				}
+				sperms, _ := permutations(sidx, 12, rng)
+				seenS := map[string]bool{}
+				for _, p := range sperms {
+					pm := &openfgav1.AuthorizationModel{SchemaVersion: split.SchemaVersion, Conditions: split.Conditions}
+					for _, s := range p {
+						var i int
+						fmt.Sscan(s, &i)
+						pm.TypeDefinitions = append(pm.TypeDefinitions, proto.Clone(split.TypeDefinitions[i]).(*openfgav1.TypeDefinition))
+					}
+					o := buildWG(pm, nil).outcome
+					if !seenS[o.key] {
+						seenS[o.key] = true
+						obs.SplitPerm = append(obs.SplitPerm, o)
 					}
 				}
 			}
